@@ -33,6 +33,7 @@ pub fn check(t: &Trace<'_>, out: &mut CaseOut) -> bool {
     let mut expect: VecDeque<(usize, usize)> = VecDeque::new();
     let mut received: Vec<(u8, u16)> = Vec::new();
     let mut broken = false; // an ack could not be produced: the rest of the history is not judged
+    let mut exceeded = false; // the broker sent more QoS 2 publishes than the advertised window holds
     // acknowledgements are only judged when every connection's outbound stream could be parsed
     // (a cancelled disconnect() / QoS 0 publish leaves bytes behind that hide later packets)
     let acks_judged = t.conns.iter().all(|c| c.stream_ok);
@@ -102,7 +103,13 @@ pub fn check(t: &Trace<'_>, out: &mut CaseOut) -> bool {
                                     owed.push_back(Owed { kind: 5, pid, reason: 0, written_on: None });
                                     expect.push_back((*conn, *idx));
                                 } else {
-                                    owed.push_back(Owed { kind: 5, pid, reason: 0x93, written_on: None });
+                                    // the broker opens more exchanges than the client said it can
+                                    // hold: from here on it is the broker that breaks the protocol,
+                                    // and what the client answers is not judged
+                                    out.count("broker_exceeded_the_advertised_window", 1);
+                                    exceeded = true;
+                                    broken = true;
+                                    continue;
                                 }
                                 if pending.len() >= 3 {
                                     nontrivial = true;
@@ -261,7 +268,7 @@ pub fn check(t: &Trace<'_>, out: &mut CaseOut) -> bool {
     }
     // an acknowledgement the broker cannot decode (illegal reason code for its type, bad length)
     // answers nothing; the stream checks below are skipped for such a connection, so say it here
-    if !hostile {
+    if !hostile && !exceeded {
         for c in &w.conns {
             let Some((off, why)) = &c.out.error else { continue };
             let abandoned = t.log.ops.iter().any(|o| o.conn == Some(c.idx) && matches!(o.outcome, Outcome::Cancelled | Outcome::Watchdog) && o.out_after > o.out_before && o.out_before <= *off);
